@@ -127,56 +127,142 @@ theorem J_negFloat {L : Nat} {c p : St} (h : Rel L c p) (bits : Nat) :
   refine J_emitFunc1_minus hr ?_
   rw [emitFloat_ev h.w.vc h.w.bc bits hxc, emitFloat_ev h.w.vp h.w.bp bits hxp]
 
-/-- `EvalPrevValue` when the previous opcode carries no operand-literal: it depends on that opcode only -/
-theorem evalPrev_nl {s : St} (hw : WOk s) (h : NL s) :
-    s.evalPrev = .ok (if (ent s 0).op = OP_STORE_INT0 then some (false, 0) else none) := by
-  unfold St.evalPrev
-  rw [prevOp_eq s hw]
-  have h' := of_decide_eq_false h
-  have e0 : OP_STORE_INT0 = 12 := rfl
-  have e1 : OP_STORE_INT1 = 13 := rfl
-  have e2 : OP_STORE_INT2 = 14 := rfl
-  have e3 : OP_STORE_INT3 = 15 := rfl
-  have e4 : OP_STORE_INT4 = 16 := rfl
-  have e8 : OP_STORE_INT8 = 17 := rfl
-  have ef : OP_STORE_FLOAT = 21 := rfl
-  simp only [ok_bind, e0, e1, e2, e3, e4, e8, ef] at h' ⊢
-  by_cases a0 : (ent s 0).op = 12
-  · simp [a0]
-  · have a1 : (ent s 0).op ≠ 13 := by omega
-    have a2 : (ent s 0).op ≠ 14 := by omega
-    have a3 : (ent s 0).op ≠ 15 := by omega
-    have a4 : (ent s 0).op ≠ 16 := by omega
-    have a8 : (ent s 0).op ≠ 17 := by omega
-    have af : (ent s 0).op ≠ 21 := by omega
-    simp [a0, a1, a2, a3, a4, a8, af]
+theorem ms_int (v : Nat) : MSP (.int v) := by
+  refine ⟨fun hpl {L c p} h => ?_, fun hpl {L c p} h => ?_, fun hpl {L c p} h => ?_, fun hpl hev {L c p c' p'} h hc hL hp => ?_⟩
+  · simp only [emit]; exact J_emitInteger h v
+  · simp only [emitRef]; exact J.error_left
+  · simp only [emitAssign]; exact J.error_left
+  · simp only [emit] at hc hp
+    rw [emitInteger_ev h.w.vc h.w.bc v hc, emitInteger_ev h.w.vp h.w.bp v hp]
 
-/-- after an operand that ends in a non-literal opcode, both passes see the same (empty or zero) previous value -/
-theorem evalPrev_eq_of_nl {L : Nat} {c p : St} (h : Rel L c p) (hc : NL c) (hp : NL p) : c.evalPrev = p.evalPrev := by
-  rw [evalPrev_nl h.w.vc hc, evalPrev_nl h.w.vp hp]
-  rcases h.topCases with heq | ⟨h1, h2⟩
-  · rw [heq]
-  · rw [if_neg (untested_elim h1).1, if_neg (untested_elim h2).1]
+theorem ms_float (bits : Nat) : MSP (.float bits) := by
+  refine ⟨fun hpl {L c p} h => ?_, fun hpl {L c p} h => ?_, fun hpl {L c p} h => ?_, fun hpl hev {L c p c' p'} h hc hL hp => ?_⟩
+  · simp only [emit]; exact J_emitOpBytes h _ _ _ rfl
+  · simp only [emitRef]; exact J.error_left
+  · simp only [emitAssign]; exact J.error_left
+  · simp only [emit] at hc hp
+    rw [emitFloat_ev h.w.vc h.w.bc bits hc, emitFloat_ev h.w.vp h.w.bp bits hp]
+
+/-- `AbsorbPrevOpcode` keeps the byte stores in shape (either manager) -/
+theorem absorb_bok {s s1 : St} (hw : WOk s) (hb : BOk s) (hx : s.absorb = .ok s1) : WOk s1 ∧ BOk s1 := by
+  refine ⟨wp_of_eq_ok (absorb_wk s hw) hx, ?_⟩
+  unfold St.absorb at hx
+  rw [prevOp_eq s hw] at hx
+  simp only [ok_bind] at hx
+  cases hl : opLen? (ent s 0).op with
+  | none => rw [hl] at hx; cases hx
+  | some len =>
+    rw [hl] at hx
+    simp only [ok_bind] at hx
+    unfold St.moveBack at hx
+    split at hx
+    · simp only [ok_bind] at hx
+      injection hx with hx; subst hx
+      exact ⟨hb.rsize, by simp only [ringSize_eq]; omega, hb.bsize⟩
+    · split at hx
+      · cases hx
+      · simp only [ok_bind] at hx
+        injection hx with hx; subst hx
+        exact ⟨hb.rsize, hb.rcur, hb.bsize⟩
+
+/-- what `EvalPrevValue` finds after `EmitFunc1(OP_UN_MINUS)`, as a function of what it found before: the same in both
+managers -/
+theorem emitFunc1_minus_ev {s s' : St} (hw : WOk s) (hb : BOk s) (hx : s.emitFunc1 OP_UN_MINUS = .ok s') :
+    (∀ f v, s.evalPrev = .ok (some (f, v)) → f = false →
+        s'.evalPrev = .ok (some (false, afterInt ((18446744073709551616 - v) % 18446744073709551616)))) ∧
+    (∀ f v, s.evalPrev = .ok (some (f, v)) → f = true →
+        s'.evalPrev = .ok (some (true, unle (le 4 (if v ≥ 2147483648 then v - 2147483648 else v + 2147483648))))) ∧
+    (s.evalPrev = .ok none → T s') := by
+  unfold St.emitFunc1 at hx
+  simp only [↓reduceIte] at hx
+  cases he : s.evalPrev with
+  | error e => rw [he] at hx; cases hx
+  | ok r =>
+    rw [he] at hx
+    simp only [ok_bind] at hx
+    cases r with
+    | none =>
+      refine ⟨fun f v h _ => (by cases h), fun f v h _ => (by cases h), fun _ => ?_⟩
+      exact wp_of_eq_ok (emitOp_T s _ hw (by decide)) hx
+    | some x =>
+      obtain ⟨f, v⟩ := x
+      simp only [] at hx
+      cases ha : s.absorb with
+      | error e => rw [ha] at hx; cases hx
+      | ok s1 =>
+        rw [ha] at hx
+        simp only [ok_bind] at hx
+        obtain ⟨w1, b1⟩ := absorb_bok hw hb ha
+        refine ⟨fun f' v' h hf => ?_, fun f' v' h hf => ?_, fun h => (by cases h)⟩
+        · injection h with h; injection h with h; injection h with h1 h2
+          subst h1 h2 hf
+          simp only [Bool.false_eq_true, ↓reduceIte] at hx
+          exact emitInteger_ev w1 b1 _ hx
+        · injection h with h; injection h with h; injection h with h1 h2
+          subst h1 h2 hf
+          simp only [↓reduceIte] at hx
+          exact emitFloat_ev w1 b1 _ hx
 
 theorem ms_f1 (op : Nat) (x : Node) (ih1 : MSP x) : MSP (.f1 op x) := by
-  refine ⟨fun hpl => ?_, fun hpl => ?_, fun hpl => ?_⟩ <;> intro L c p h
-  · simp only [emit]
-    have hx : x.plain = true := by simp only [Node.plain, Bool.and_eq_true] at hpl; exact hpl.2
+  have hplx : (Node.f1 op x).plain = true → x.plain = true := fun hpl => by
+    simp only [Node.plain, Bool.and_eq_true] at hpl; exact hpl.2
+  -- the lock-step statement
+  have he : (Node.f1 op x).plain = true → ∀ {L c p}, Rel L c p → J L (emit (.f1 op x) c) (emit (.f1 op x) p) (Rel L) := by
+    intro hpl L c p h
+    simp only [emit]
+    have hx := hplx hpl
     by_cases hop : op = OP_UN_MINUS
     · subst hop
-      have hl : x.isLit = true ∨ x.endsNL = true := by simp [Node.plain] at hpl; exact hpl.1
-      rcases hl with hl | hn
-      · cases x with
-        | int v => simp only [emit]; exact J_negInt h v
-        | float b => simp only [emit]; exact J_negFloat h b
-        | _ => simp [Node.isLit] at hl
-      · refine J.bind (J.withEq (ih1.e hx h)) (fun _ => by pl_auto) ?_
-        intro c1 p1 ⟨hr, hxc, hxp⟩
-        have tc : T c1 := wp_of_eq_ok (endsNL_spec x c hn h.w.vc) hxc
-        have tp : T p1 := wp_of_eq_ok (endsNL_spec x p hn h.w.vp) hxp
-        exact J_emitFunc1_minus hr (evalPrev_eq_of_nl hr tc.2 tp.2)
+      have hxe : x.evOk = true := by simp [Node.plain] at hpl; exact hpl.1
+      refine J.bind (J.withEq (ih1.e hx h)) (fun _ => by pl_auto) ?_
+      intro c1 p1 ⟨hr, hxc, hxp⟩
+      intro c'' hx'' hL
+      have hb1 : pl c1 ≤ L := by
+        have := emitFunc1_pl c1 OP_UN_MINUS; rw [hx''] at this
+        exact Nat.le_trans this hL
+      exact J_emitFunc1_minus hr (ih1.ev hx hxe h hxc hb1 hxp) c'' hx'' hL
     · exact J.bind (ih1.e hx h) (fun _ => by pl_auto) (fun c1 p1 h1 => J_emitFunc1 h1 op hop)
-  · simp only [emitRef]; ms_steps
-  · simp only [emitAssign]; ms_steps
+  refine ⟨he, fun hpl {L c p} h => ?_, fun hpl {L c p} h => ?_, fun hpl hev {L c p c' p'} h hc hL hp => ?_⟩
+  · simp only [emitRef]; exact J.error_left
+  · simp only [emitAssign]; exact J.error_left
+  · -- what both passes read after the node
+    have hr' : Rel L c' p' := by have := he hpl h c' hc hL; rw [hp] at this; exact this
+    have hx := hplx hpl
+    simp only [emit] at hc hp
+    cases hc1 : emit x c with
+    | error e => rw [hc1] at hc; cases hc
+    | ok c1 =>
+      cases hp1 : emit x p with
+      | error e => rw [hp1] at hp; cases hp
+      | ok p1 =>
+        rw [hc1] at hc; rw [hp1] at hp
+        simp only [ok_bind] at hc hp
+        by_cases hop : op = OP_UN_MINUS
+        · subst hop
+          have hxe : x.evOk = true := by simpa [Node.evOk] using hev
+          have hb1 : pl c1 ≤ L := by
+            have := emitFunc1_pl c1 OP_UN_MINUS; rw [hc] at this
+            exact Nat.le_trans this hL
+          have hr1 : Rel L c1 p1 := by have := ih1.e hx h c1 hc1 hb1; rw [hp1] at this; exact this
+          have hev1 := ih1.ev hx hxe h hc1 hb1 hp1
+          obtain ⟨ci, cf, cn⟩ := emitFunc1_minus_ev hr1.w.vc hr1.w.bc hc
+          obtain ⟨pi, pf, pn⟩ := emitFunc1_minus_ev hr1.w.vp hr1.w.bp hp
+          cases hr : c1.evalPrev with
+          | error e =>
+            exfalso
+            unfold St.emitFunc1 at hc; simp only [↓reduceIte, hr, error_bind] at hc; cases hc
+          | ok r =>
+            have hrp : p1.evalPrev = .ok r := by rw [← hev1]; exact hr
+            cases r with
+            | none => exact evalPrev_eq_of_nl hr' (cn hr).2 (pn hrp).2
+            | some fv =>
+              obtain ⟨f, v⟩ := fv
+              cases f with
+              | false => rw [ci false v hr rfl, pi false v hrp rfl]
+              | true => rw [cf true v hr rfl, pf true v hrp rfl]
+        · have hnl : byteLit (op % 256) = false := by simpa [Node.evOk, hop] using hev
+          have tc := wp_of_eq_ok (emitFunc1_T c1 op (wp_of_eq_ok ((wk_all x).e c h.w.vc) hc1) hop hnl) hc
+          have tp := wp_of_eq_ok (emitFunc1_T p1 op (wp_of_eq_ok ((wk_all x).e p h.w.vp) hp1) hop hnl) hp
+          exact evalPrev_eq_of_nl hr' tc.2 tp.2
 
 end Morfuse.Emit
